@@ -27,11 +27,11 @@ CHECKS = {
    design="§4 C02"),
  "C16": dict(
    text="Bounded symbolic model checking of registration: the real lexTemplate + addRule run on every template string up to the bound (all bytes symbolic) onto empty and pre-populated tries and are compared with an independent recursive-descent reference of the documented grammar (valid+resolvable => accepted; not derivable / unknown field / unresolvable body or response_body selector / colliding binding / nested bindings => error; never a panic; a rejected rule leaves the old route working).",
-   note="Trusted base as C01. Unspecified regions (only panic-freedom demanded): nested variables, '**' not last, literals not starting with a letter, message-typed path fields, kind-* vs specific verb across methods. Publication atomicity of registerService is not yet claimed here.",
+   note="Trusted base as C01. Unspecified regions (only panic-freedom demanded): nested variables, '**' not last, literals not starting with a letter, message-typed path fields, kind-* vs specific verb across methods. Publication atomicity is decided through the real registerService in the registry histories (a failing registration leaves the published snapshot pointer-identical).",
    design="§4 C16"),
  "C19": dict(
    text="Bounded symbolic model checking of the real ruleSelector.setRules/getRules: a symbolic well-formed selector plus a menu selector, both registration orders, against every symbolic method name within the bound; a rule is returned iff the reference selector semantics (exact name, '*', or 'prefix.*' covering >= 1 further component) says so.",
-   note="Trusted base as C01 plus the byte-wise model of strings.Index. Outside (N/A part): health.AddHealthz end-to-end; config-rule vs annotation equivalence through appendHandler is pending the registry driver.",
+   note="Trusted base as C01 plus the byte-wise model of strings.Index. Outside (N/A part): health.AddHealthz end-to-end; Config-rule vs annotation equivalence is decided relationally: two muxes built through NewMux + registerService resolve every symbolic path identically.",
    design="§4 C19"),
  "C14": dict(
    text="Bounded symbolic model checking of the metadata kernels: decodeBinHeader/encodeBinHeader with the real encoding/base64 interpreted on symbolic bytes (padded and unpadded), setOutgoingHeader with reserved names, symbolic near-misses and arbitrary short keys against a header map holding the reserved response headers, newIncomingContext on headers with symbolic values.",
@@ -65,6 +65,18 @@ CHECKS = {
    text="Panic-freedom and termination as the only obligations, over the real entry point and kernels on unconstrained symbolic input: ServeHTTP with symbolic content types, Accept headers, paths and bodies across the gRPC, gRPC-web and transcoding entries on HTTP/1 and HTTP/2; match at the 64-token cap; query parameters over list / map / nested fields; registration of mutated templates; stream codec parsers; gRPC frame reader with stats; status tables; negotiation; timeout parser. Any panic escaping larking's code or a path exhausting the step budget is reported with the concrete request and replayed natively.",
    note="Trusted base as C07. Every media type is served by the recording codec (real protobuf-go codecs cannot run on fake messages). Outside: the HTTP/2 server, ws.UpgradeHTTP / WebSocket frame I/O, user-supplied interceptors, gzip.",
    design="§4 C09"),
+ "C11": dict(
+   text="Bounded model checking of the registration state machine through the real code: NewMux, registerService, RegisterConn's body (clone, addConnHandler with a fake reflection conversation, storeState), DropConn, removeHandler, delRule, pickMethodHandler and match are executed for every history of register / drop operations up to the bound, and after every step the published state is compared with a reference model mapping each method to its number of live backends (counts, dropped handlers gone, handler pick succeeds iff a backend is live, the HTTP route of every live method still dispatches, documented return values).",
+   note="Trusted base as C07 plus the discovery stubs (fake reflection stream; under the engine proto.Unmarshal of descriptors / protodesc.NewFile / sha256 are replaced, the native replay uses real descriptor bytes). Histories are enumerated by forked choices; there is little for the solver to range over besides the math/rand pick. Outside: invoking proxied handlers, histories longer than the bound.",
+   design="§4 C11"),
+ "C12": dict(
+   text="Sequential premises of the copy-on-write argument only, decided on the real code: after every writer of every C11 history the previously published snapshot has an unchanged structural fingerprint, no-op and failing operations leave the routing state unchanged (a failed registerService leaves the snapshot pointer identical), and a relational query shows that an old snapshot resolves every symbolic request path identically before and after a second writer ran.",
+   note="NOT claimed (N/A part of the property): the interleaving quantifier and data-race freedom. The engine has no goroutine semantics; removing Mux.mu or making the publication non-atomic would not be detected.",
+   design="§4 C12"),
+ "C13": dict(
+   text="Sequentialised pooled-buffer aliasing only: two HttpBody requests with independent symbolic bodies run back to back over larking's byte pool under a pool model that hands the second request the buffer recycled by the first; the bytes the first handler retained and the reply the first client received must be unchanged afterwards.",
+   note="NOT claimed (N/A part): race freedom, true concurrency, gzip pools, proxy pumps - no goroutine model. The check can fail for one realistic class of edit (dropping the copy out of the pooled buffer / recycling a buffer that is still referenced).",
+   design="§4 C13"),
 }
 
 NOT_APPLICABLE = {
